@@ -22,7 +22,7 @@ import time
 
 VERIF = os.path.dirname(os.path.dirname(os.path.abspath(__file__)))
 REPO = os.environ.get("VERIF_REPO", "/repo")
-BUILD = os.path.join(VERIF, "build")
+BUILD = os.environ.get("VERIF_BUILD_DIR") or os.path.join(VERIF, "build")      # selftest/mutants.py gives every worker a cache of its own
 OUT = os.environ.get("VERIF_OUT_DIR") or os.path.join(VERIF, "out")
 EVID = os.environ.get("VERIF_EVIDENCE_DIR") or os.path.join(VERIF, "evidence")   # selftest runs must not overwrite real evidence
 SPEC = os.path.join(VERIF, "spec")
